@@ -6,10 +6,11 @@
 
    discovery_methods.rs:372 check_missed_writer_deadline, one registered instance:
        if now - *t > deadline { *t += deadline; total_count += 1; signal }
-   discovery_methods.rs:245 check_missed_reader_deadline, one instance:
-       if now - last_received_time_stamp > deadline { total_count += 1; signal }   (no re-arm)
+   discovery_methods.rs:315 check_missed_reader_deadline, one instance:
+       if now - last_received_time_stamp > deadline { rearm_deadline(deadline);
+                                                      total_count += 1; signal }
    data_writer_entity.rs:147 / data_reader_entity.rs:77: a new sample sets the time
-   (writer: only forward). *)
+   (writer: only forward; reader: the reception time). *)
 From DustDDS Require Export Base.Machine.
 Open Scope Z_scope.
 
@@ -32,7 +33,7 @@ Definition rstep (D : Z) (s : dstate) (e : dev) : dstate :=
   match e with
   | Sample t => mkD t (d_count s) (d_signals s)
   | Wake now => if D <? now - d_t s
-                then mkD (d_t s) (d_count s + 1) (d_signals s ++ [d_count s + 1])
+                then mkD (d_t s + D) (d_count s + 1) (d_signals s ++ [d_count s + 1])
                 else s
   end.
 Definition wrun (D : Z) (evs : list dev) (s : dstate) : dstate := fold_left (wstep D) evs s.
@@ -58,20 +59,6 @@ Fixpoint dense (D last : Z) (ws : list Z) : Prop :=
   | [] => True
   | w :: r => last <= w /\ w - last <= D /\ dense D w r
   end.
-
-(* reader side: the period index of an overdue wake *)
-Definition period_index (D t0 w : Z) : Z := elapsed_periods D (w - t0).
-(* class of the recorded finding C30-reader-no-rearm, on a silence after a sample at t0:
-   the overdue wakes do NOT hit every elapsed period exactly once, i.e. the list of period
-   indices of the overdue wakes is not 1, 2, 3, ... *)
-Fixpoint once_per_period (D t0 next : Z) (ws : list Z) : bool :=
-  match ws with
-  | [] => true
-  | w :: r => if D <? w - t0
-              then (period_index D t0 w =? next) && once_per_period D t0 (next + 1) r
-              else once_per_period D t0 next r
-  end.
-Definition reader_known (D t0 : Z) (ws : list Z) : bool := negb (once_per_period D t0 1 ws).
 
 (* ---------------------------------------------------------------- oracle on observations *)
 (* sample times of one instance (in order) -> expected total at time T *)
